@@ -251,7 +251,7 @@ func (c *Ctx) lexRun() map[string]*simpleVerdict {
 
 func init() {
 	register(&Rule{ID: "TOK.lexemes", Floor: 2,
-		Doc: "the generic and the expression tokenizer evaluated abstractly over sequences of lexemes of every class (identifiers incl. Latin-1 / non-Latin starts, keywords in any case, integer, decimal and scientific numbers, quoted strings with doubled quotes, comments, whitespace runs, every single and multi-character symbol): singles, every ordered pair with a separator, pairs of unmergeable kinds without one, triples around every multi-character symbol and keyword: exactly those lexemes with exactly those classes come back",
+		Doc: "the generic and the expression tokenizer evaluated abstractly over sequences of lexemes of every class (identifiers incl. Latin-1 / non-Latin starts, keywords in any case, integer, decimal and scientific numbers, quoted strings with doubled quotes, comments, whitespace runs, every single and multi-character symbol): singles, every ordered pair with a separator, pairs of unmergeable kinds without one, triples around every multi-character symbol and keyword, every single-character symbol (the dot included) between identifiers that may look like exponent parts: exactly those lexemes with exactly those classes come back",
 		Run: func(c *Ctx) []*Obligation {
 			o := newObl("TOK.lexemes")
 			res := c.lexRun()
